@@ -5,6 +5,7 @@ CONSTANTS MaxIdx = 2
           MaxReaders = 2
           MaxRF = 1
           Depth = 5
+          DupMode = "any"
           QMode = "edge"
 CONSTRAINT Bounded
 INVARIANT W_NoOldAndNewReader
